@@ -4,6 +4,7 @@ import Driver.Codec
 import Driver.Seq
 import Driver.HintE
 import Driver.Proto
+import Driver.Conc
 
 open Driver
 
@@ -17,6 +18,7 @@ def main (args : List String) : IO UInt32 := do
     | ["crash"] => Driver.Seq.run lines
     | ["hint"] => Driver.HintE.run lines
     | ["proto"] => Driver.Proto.run lines
+    | ["conc"] => Driver.Conc.run lines
     | _ => do IO.eprintln "usage: driver <engine> < trace"; return 2
   IO.println s!"SUMMARY lines={lines.size} checked={rep.checked} diffs={rep.diffs}"
   return 0
